@@ -162,6 +162,14 @@ NofmtData ==
   /\ ei' = ei + 1
   /\ UNCHANGED << tid, ph, rd, nrec, bnd, dec, cfil, clf, cobj, rej, hcm, seen, projs, failedw >>
 
+(* the payload of an existing no-format record is replaced (record.data = ...): Canon follows *)
+NofmtReplace ==
+  /\ ph = "ev" /\ ei <= NEvents /\ E.op = "nofmt_replace"
+  /\ cnf' = IF E.outcome = "ok" /\ E.idx \in DOMAIN cnf THEN [cnf EXCEPT ![E.idx].payload = E.payload] ELSE cnf
+  /\ cnt' = [cnt EXCEPT !.events = @ + 1]
+  /\ ei' = ei + 1
+  /\ UNCHANGED << tid, ph, rd, nrec, bnd, dec, cfil, clf, cobj, rej, hcm, seen, projs, failedw, verdict >>
+
 (* C17: the context manager: enter saves and sets, leaving restores (also by exception) *)
 HcEvent ==
   /\ ph = "ev" /\ ei <= NEvents /\ E.op \in {"hc_enter", "hc_exit", "hc_exit_exc"}
@@ -408,7 +416,7 @@ CheckHistory ==          \* C10 / C11 / C14 same specification => same bytes; C1
 \* (handled in BeginWrite for the flag; caller data below)
 
 (* events this specification has no clause for are skipped (counted)        *)
-KnownOps == {"lowwrite", "write", "new_file", "add_lf", "add", "set", "nofmt_data", "hc_enter", "hc_exit", "hc_exit_exc", "encode", "attr", "set_sul"}
+KnownOps == {"lowwrite", "write", "new_file", "add_lf", "add", "set", "nofmt_data", "hc_enter", "hc_exit", "hc_exit_exc", "encode", "attr", "set_sul", "nofmt_replace"}
 SkipEvent ==
   /\ ph = "ev" /\ ei <= NEvents /\ E.op \notin KnownOps
   /\ ei' = ei + 1 /\ cnt' = [cnt EXCEPT !.events = @ + 1]
@@ -421,7 +429,7 @@ Finish ==
   /\ ph' = "done"
   /\ UNCHANGED << tid, ei, rd, nrec, bnd, dec, cfil, clf, cobj, cnf, rej, hcm, seen, projs, failedw, verdict, cnt >>
 
-Next == NewFile \/ SetSul \/ AddLf \/ AddObject \/ SetAttr \/ NofmtData \/ HcEvent \/ Encode \/ AttrEvent
+Next == NewFile \/ SetSul \/ AddLf \/ AddObject \/ SetAttr \/ NofmtData \/ NofmtReplace \/ HcEvent \/ Encode \/ AttrEvent
         \/ BeginWrite \/ ReadVR \/ EndFile \/ CheckStructure \/ CheckObjects \/ CheckData \/ CheckHistory
         \/ SkipEvent \/ Finish
 
